@@ -121,6 +121,14 @@ func genC09(g *gen, seed int64) *Program {
 				}
 				r.DeadlineN = int64(d) + g.uniq()
 			}
+			if g.p(0.3) {
+				// per-RPC credentials whose lookup takes time (a token refresh):
+				// that time is the caller's, not transit
+				r.Creds = &CredSpec{MD: []KV{{K: "authorization", V: "tok"}}}
+				if g.p(0.8) {
+					r.Creds.DelayN = int64(1+g.pick(900))*1e6 + g.uniq()
+				}
+			}
 			switch r.Kind {
 			case KUnary:
 				r.Client = []Op{{K: "invoke", Msg: g.msg()}}
@@ -239,6 +247,21 @@ func oracleC09(s *Sim) {
 				issued = v.newstream.T
 			}
 			transit := v.hStart.T - issued
+			// transit proper starts when the request's first byte goes onto the
+			// connection (time the caller spends before that, e.g. in a slow
+			// credential lookup, is not transit)
+			// (not from the first byte on the wire: between computing the
+			// timeout and writing the request the library's own goroutine may
+			// be delayed, which it cannot account for.) What it can and must
+			// account for is time spent obtaining per-RPC credentials: the
+			// request cannot be issued before the lookup has returned.
+			for _, ev := range v.ev {
+				if ev.Op == "creds-delay" && ev.RSeq != 0 && ev.RT > issued && ev.RT <= v.hStart.T {
+					issued = ev.RT
+					transit = v.hStart.T - issued
+					s.stats.Probes["c09-issued-after-credentials"]++
+				}
+			}
 			if transit < 0 {
 				transit = 0
 			}
@@ -469,6 +492,38 @@ func genC11(g *gen, seed int64) *Program {
 		}
 		r.StopOnErr = g.p(0.7)
 		p.RPCs = append(p.RPCs, r)
+	}
+	if len(p.RPCs) == 2 && g.p(0.5) {
+		// state carried across requests: the second request is sent after the
+		// first has been answered, often with the very same Content-Type
+		// string to a method of the other kind
+		a, b := p.RPCs[0], p.RPCs[1]
+		b.After = 1
+		if g.p(0.6) {
+			var act string
+			for _, kv := range a.Client[0].Raw.Hdrs {
+				if kv.K == "Content-Type" {
+					act = string(kv.V)
+				}
+			}
+			for i, kv := range b.Client[0].Raw.Hdrs {
+				if kv.K == "Content-Type" {
+					b.Client[0].Raw.Hdrs[i].V = RawStr(act)
+				}
+			}
+			// a body that is well-formed for the new content type
+			rq := b.Client[0].Raw
+			enc := mustMarshal(b.ReqSpec.Build())
+			switch {
+			case strings.HasPrefix(strings.ToLower(act), "application/json") && !strings.Contains(act, "+"):
+				jb, _ := protojson.Marshal(b.ReqSpec.Build())
+				rq.Body, rq.Note = RawStr(jb), "json"
+			case b.Kind == KUnary:
+				rq.Body, rq.Note = RawStr(enc), "proto"
+			default:
+				rq.Body, rq.Note = RawStr(refFrame(enc, false)), "frames:1"
+			}
+		}
 	}
 	return p
 }
@@ -1022,4 +1077,25 @@ func oracleC07server(s *Sim) {
 			break
 		}
 	}
+}
+
+
+// requestSentAt: the virtual time at which the first byte of the connection
+// that carries (only) this call's request was written.
+func (s *Sim) requestSentAt(id int) (int64, bool) {
+	s.mu.Lock()
+	conns := append([]*connPair(nil), s.conns...)
+	s.mu.Unlock()
+	for _, p := range conns {
+		on := s.rpcsOnConn(p)
+		if len(on) == 1 && on[0] == id {
+			p.c2s.mu.Lock()
+			t := p.c2s.firstWriteT
+			p.c2s.mu.Unlock()
+			if t >= 0 {
+				return t, true
+			}
+		}
+	}
+	return 0, false
 }
